@@ -328,6 +328,35 @@ MUTANTS = [
    "                surf_to_id[surf] = key"),
   ("            skey = (surf.type_surface, tuple(round(p, 6) for p in surf.param_surface), None if surf.transform is None else tuple(surf.transform[1].flat))\n            if skey in surf_to_id:\n                renumbering[key] = surf_to_id[skey]",
    "                surf_to_id[skey] = key")),
+ # ---- C14
+ ('C14-1', 'C14', 'MIP/mip/cards.py',
+  "            n_spaces = 8-(i%8)",
+  "            n_spaces = 4-(i%4)"),
+ ('C14-2', 'C14', 'MIP/mip/cards.py',
+  "re_continuation_spaces = re.compile(r'^\\s{5,}')",
+  "re_continuation_spaces = re.compile(r'^\\s{6,}')"),
+ ('C14-3', 'C14', 'MIP/mip/main.py',
+  "        for l in self.lines:\n            res.extend(re_comment.split(l))",
+  "        for l in self.lines[:1]:\n            res.extend(re_comment.split(l))\n        res.extend(self.lines[1:])"),
+ ('C14-4', 'C14', K + 'FileHandlers/Parser/ParseMCNPCell.py',
+  "        option = (option.lower().replace('(', ' ').replace(')', ' ')",
+  "        option = (option.replace('(', ' ').replace(')', ' ')"),
+ ('C14-5', 'C14', 'MIP/mip/cards.py',
+  "re_continuation_prev = re.compile(r'[^$]*&\\s*($|\\$.*$)')",
+  "re_continuation_prev = re.compile(r'[^$]*&\\s*$')"),
+ ('C14-6', 'C14', 'MIP/mip/cards.py',
+  "re_comment = re.compile(r'^\\s{0,4}[cC](\\s|$)')",
+  "re_comment = re.compile(r'^\\s{0,4}[c](\\s|$)')"),
+ ('C14-7', 'C14', 'MIP/mip/utils.py',
+  "    return float(token.lower().replace('d', 'e'))",
+  "    return float(token.replace('d', 'e'))"),
+ ('C14-8', 'C14', 'MIP/mip/datacard.py',
+  "            n_reps = int(token[:-1]) if len(token) > 1 else 1\n            result.extend([result[-1]]*n_reps)",
+  "            n_reps = int(token[:-1]) if len(token) > 1 else 2\n            result.extend([result[-1]]*n_reps)"),
+ # (C14-9, dropping .lower() in get_surfaces, is equivalent: string_to_enum upper-cases)
+ ('C14-10', 'C14', 'MIP/mip/blocks.py',
+  "    if text[:20].split()[0].lower() == 'message:':",
+  "    if text[:20].split()[0] == 'MESSAGE:':"),
 ]
 
 
